@@ -217,6 +217,11 @@ static int CurlAsyncRequest_processResponse(CurlAsyncRequest *curlResponse) {
 				KSI_LOG_error(clientCtx->ctx,
 						"[%p] Async Curl HTTP: unable to create new KSI_OctetString object. Error: 0x%x.",
 						clientCtx, res);
+				/* The response is lost: end the request of this transfer instead of letting it wait for the receive timeout. */
+				if (handle->state == KSI_ASYNC_STATE_WAITING_FOR_RESPONSE) {
+					handle->state = KSI_ASYNC_STATE_ERROR;
+					handle->err = res;
+				}
 				res = KSI_OK;
 				goto cleanup;
 			}
@@ -226,6 +231,10 @@ static int CurlAsyncRequest_processResponse(CurlAsyncRequest *curlResponse) {
 				KSI_LOG_error(clientCtx->ctx,
 						"[%p] Async Curl HTTP: unable to add new response to queue. Error: 0x%x.",
 						clientCtx, res);
+				if (handle->state == KSI_ASYNC_STATE_WAITING_FOR_RESPONSE) {
+					handle->state = KSI_ASYNC_STATE_ERROR;
+					handle->err = res;
+				}
 				res = KSI_OK;
 				goto cleanup;
 			}
